@@ -7,6 +7,7 @@ from lapy import TriaMesh, TetMesh, Solver
 DT = {"f64": np.float64, "f32": np.float32}
 IT = {"i64": np.int64, "i32": np.int32}
 TOL = {"f64": 1e-9, "f32": 2e-4}
+SCALES = [1.0, 1.0, 2e-4, 1.0, 37.0]
 
 
 def case_dict(kind, v, t, **kw):
@@ -75,6 +76,8 @@ def run_stream(drv, stats, seed, n_tri, n_tet, size, failures, name="fem corresp
             dt = dtypes[k % len(dtypes)]
             it = "i64" if k % 3 else "i32"
             k += 1
+            sc = SCALES[(k // 2) % len(SCALES)] if dt == "f64" else 1.0        # small / large meshes: the guards are absolute
+            c = dict(c, v=c["v"] * sc, tags=set(c["tags"]) | ({"scale:%g" % sc} if sc != 1.0 else set()))
             err = compare_fem(drv, "tri", c["v"], c["t"], lump, dt, it)
             stats.case(core.mesh_key(c["v"], c["t"], lump, dt), sample=dict(kind="tri", name=c["name"], nv=len(c["v"]),
                        nt=len(c["t"]), lump=lump, dtype=dt) if k < 3 else None,
